@@ -51,6 +51,13 @@ static a_real *block(a_size n) /* n concrete on the path: typed block */
     ASSUME(p != 0);
     return p;
 }
+/* native replay only: release the blocks (LeakSanitizer would otherwise end the process before stdout is flushed) */
+#ifdef VERIF_NATIVE
+#define RELEASE(p) free((void *)(p))
+#else
+#define RELEASE(p) (void)(p)
+#endif
+#define RELEASE4(a, b, c, d) RELEASE(a); RELEASE(b); RELEASE(c); RELEASE(d)
 /* up to NB individually named symbolic reals (named so that a native replay can take them from the counterexample) */
 #define DECL4(v) ND(a_real, v##0, double); ND(a_real, v##1, double); ND(a_real, v##2, double); ND(a_real, v##3, double); \
     a_real v[4]; v[0] = v##0; v[1] = v##1; v[2] = v##2; v[3] = v##3
@@ -67,45 +74,47 @@ static void load(a_real *p, a_real const *v, a_size n)
         all orders 0 .. 65536 (no loop: memset model) ---- */
 void h_tf_set(void)
 {
-    ND(unsigned, n, u32); ND(unsigned, m, u32); ND(a_size, w, size); ND(_Bool, den, bool);
-    ASSUME(n <= NBIG && m <= NBIG);
-    a_real *coef = block_sym(n), *line = block_sym(n);
-    a_real *p1 = block_sym(m), *p2 = block_sym(m);
+    ND(unsigned, vn, u32); ND(unsigned, vm, u32); ND(a_size, vw, size); ND(_Bool, den, bool);
+    ASSUME(vn <= NBIG && vm <= NBIG);
+    a_real *coef = block_sym(vn), *line = block_sym(vn);
+    a_real *p1 = block_sym(vm), *p2 = block_sym(vm);
     a_tf c;
-    if (den) { c.num_p = p1; c.input = p2; c.num_n = m; } else { c.den_p = p1; c.output = p2; c.den_n = m; }
-    if (den) { a_tf_set_den(&c, n, coef, line); } else { a_tf_set_num(&c, n, coef, line); }
+    if (den) { c.num_p = p1; c.input = p2; c.num_n = vm; } else { c.den_p = p1; c.output = p2; c.den_n = vm; }
+    if (den) { a_tf_set_den(&c, vn, coef, line); } else { a_tf_set_num(&c, vn, coef, line); }
     if (den)
     {
-        ASSERT(c.den_p == coef && c.output == line && c.den_n == n, "set_den: coefficient pointer, delay line and order are stored");
-        ASSERT(c.num_p == p1 && c.input == p2 && c.num_n == m, "set_den: numerator half untouched");
+        ASSERT(c.den_p == coef && c.output == line && c.den_n == vn, "set_den: coefficient pointer, delay line and order are stored");
+        ASSERT(c.num_p == p1 && c.input == p2 && c.num_n == vm, "set_den: numerator half untouched");
     }
     else
     {
-        ASSERT(c.num_p == coef && c.input == line && c.num_n == n, "set_num: coefficient pointer, delay line and order are stored");
-        ASSERT(c.den_p == p1 && c.output == p2 && c.den_n == m, "set_num: denominator half untouched");
+        ASSERT(c.num_p == coef && c.input == line && c.num_n == vn, "set_num: coefficient pointer, delay line and order are stored");
+        ASSERT(c.den_p == p1 && c.output == p2 && c.den_n == vm, "set_num: denominator half untouched");
     }
-    if (w < n) { ASSERT(BITS(line[w]) == 0, "set_num/set_den: every entry of the delay line is +0 (witness entry)"); }
+    if (vw < vn) { ASSERT(BITS(line[vw]) == 0, "set_num/set_den: every entry of the delay line is +0 (witness entry)"); }
+    RELEASE4(coef, line, p1, p2);
     VERIF_CANARY();
 }
 
 /* ---- [P] a_tf_init = both halves; a_tf_zero restores exactly the state after init ---- */
 void h_tf_init_zero(void)
 {
-    ND(unsigned, n, u32); ND(unsigned, m, u32); ND(a_size, w, size); ND(a_size, v, size);
-    ASSUME(n <= NBIG && m <= NBIG);
-    a_real *num = block_sym(n), *in = block_sym(n), *den = block_sym(m), *out = block_sym(m);
+    ND(unsigned, vn, u32); ND(unsigned, vm, u32); ND(a_size, vw, size); ND(a_size, vv, size);
+    ASSUME(vn <= NBIG && vm <= NBIG);
+    a_real *num = block_sym(vn), *in = block_sym(vn), *den = block_sym(vm), *out = block_sym(vm);
     a_tf c;
-    a_tf_init(&c, n, num, in, m, den, out);
-    ASSERT(c.num_p == num && c.input == in && c.num_n == n && c.den_p == den && c.output == out && c.den_n == m, "init: pointers and orders are stored");
-    if (w < n) { ASSERT(BITS(in[w]) == 0, "init: input delay line is zero (witness entry)"); }
-    if (v < m) { ASSERT(BITS(out[v]) == 0, "init: output delay line is zero (witness entry)"); }
+    a_tf_init(&c, vn, num, in, vm, den, out);
+    ASSERT(c.num_p == num && c.input == in && c.num_n == vn && c.den_p == den && c.output == out && c.den_n == vm, "init: pointers and orders are stored");
+    if (vw < vn) { ASSERT(BITS(in[vw]) == 0, "init: input delay line is zero (witness entry)"); }
+    if (vv < vm) { ASSERT(BITS(out[vv]) == 0, "init: output delay line is zero (witness entry)"); }
     /* arbitrary later state of the two lines */
-    if (w < n) { ND(a_real, dirt_in, double); in[w] = dirt_in; }
-    if (v < m) { ND(a_real, dirt_out, double); out[v] = dirt_out; }
+    if (vw < vn) { ND(a_real, dirt_in, double); in[vw] = dirt_in; }
+    if (vv < vm) { ND(a_real, dirt_out, double); out[vv] = dirt_out; }
     a_tf_zero(&c);
-    if (w < n) { ASSERT(BITS(in[w]) == 0, "zero: input delay line is back to the initial state (witness entry)"); }
-    if (v < m) { ASSERT(BITS(out[v]) == 0, "zero: output delay line is back to the initial state (witness entry)"); }
-    ASSERT(c.num_p == num && c.input == in && c.num_n == n && c.den_p == den && c.output == out && c.den_n == m, "zero: pointers and orders untouched");
+    if (vw < vn) { ASSERT(BITS(in[vw]) == 0, "zero: input delay line is back to the initial state (witness entry)"); }
+    if (vv < vm) { ASSERT(BITS(out[vv]) == 0, "zero: output delay line is back to the initial state (witness entry)"); }
+    ASSERT(c.num_p == num && c.input == in && c.num_n == vn && c.den_p == den && c.output == out && c.den_n == vm, "zero: pointers and orders untouched");
+    RELEASE4(num, in, den, out);
     VERIF_CANARY();
 }
 
@@ -131,13 +140,14 @@ static void push_fore_n(a_size n, a_size w, a_real x, a_real oldw, a_real oldp)
     a_real_push_fore(p, n, x);
     if (n >= 1) { ASSERT(BITS(p[0]) == BITS(x), "push_fore: the new sample is entry 0 (also for n == 1)"); }
     if (w >= 1 && w < n) { ASSERT(BITS(p[w]) == BITS(oldp), "push_fore: entry w is the old entry w-1 (witness w >= 1)"); }
+    RELEASE(p);
 }
 void h_push_fore(void)
 {
-    ND(a_size, n, size); ND(a_size, w, size); ND(a_real, x, double); ND(a_real, oldw, double); ND(a_real, oldp, double);
+    ND(a_size, vn, size); ND(a_size, vw, size); ND(a_real, vx, double); ND(a_real, oldw, double); ND(a_real, oldp, double);
     a_size k;
-    ASSUME(n <= NL);
-    EACH(k, n, NL) { push_fore_n(k, w, x, oldw, oldp); }
+    ASSUME(vn <= NL);
+    EACH(k, vn, NL) { push_fore_n(k, vw, vx, oldw, oldp); }
     VERIF_CANARY();
 }
 static void push_back_n(a_size n, a_size w, a_real x, a_real oldw, a_real oldn)
@@ -148,13 +158,14 @@ static void push_back_n(a_size n, a_size w, a_real x, a_real oldw, a_real oldn)
     a_real_push_back(p, n, x);
     if (n >= 1) { ASSERT(BITS(p[n - 1]) == BITS(x), "push_back: the new sample is the last entry (also for n == 1)"); }
     if (w < n && w + 1 < n) { ASSERT(BITS(p[w]) == BITS(oldn), "push_back: entry w is the old entry w+1 (witness w < n-1)"); }
+    RELEASE(p);
 }
 void h_push_back(void)
 {
-    ND(a_size, n, size); ND(a_size, w, size); ND(a_real, x, double); ND(a_real, oldw, double); ND(a_real, oldn, double);
+    ND(a_size, vn, size); ND(a_size, vw, size); ND(a_real, vx, double); ND(a_real, oldw, double); ND(a_real, oldn, double);
     a_size k;
-    ASSUME(n <= NL);
-    EACH(k, n, NL) { push_back_n(k, w, x, oldw, oldn); }
+    ASSUME(vn <= NL);
+    EACH(k, vn, NL) { push_back_n(k, vw, vx, oldw, oldn); }
     VERIF_CANARY();
 }
 
@@ -175,14 +186,15 @@ static void tf_iter_shift_nm(unsigned n, unsigned m, unsigned w, a_real x, a_rea
     if (w < m) { ASSERT(BITS(den[w]) == BITS(de[w]), "iter: denominator coefficients untouched"); }
     if (n == 0 && m == 0) { ASSERT(BITS(y) == 0, "iter: orders 0/0 give +0"); }
     ASSERT(c.num_p == num && c.input == inp && c.num_n == n && c.den_p == den && c.output == out && c.den_n == m, "iter: instance untouched");
+    RELEASE4(num, inp, den, out);
 }
 void h_tf_iter_shift(void)
 {
-    ND(unsigned, n, u32); ND(unsigned, m, u32); ND(unsigned, w, u32); ND(a_real, x, double);
+    ND(unsigned, vn, u32); ND(unsigned, vm, u32); ND(unsigned, vw, u32); ND(a_real, vx, double);
     unsigned k, j;
-    ASSUME(n <= NB && m <= NB);
+    ASSUME(vn <= NB && vm <= NB);
     DECL4(nu); DECL4(de); DECL4(in); DECL4(ou);
-    EACH(k, n, NB) EACH_M(j, m) { tf_iter_shift_nm(k, j, w, x, nu, de, in, ou); }
+    EACH(k, vn, NB) EACH_M(j, vm) { tf_iter_shift_nm(k, j, vw, vx, nu, de, in, ou); }
     VERIF_CANARY();
 }
 
@@ -214,14 +226,47 @@ static void tf_iter_equation_nm(unsigned n, unsigned m, a_real x, a_real const *
     a_real ref = ref_step(n, m, nu, de, u, ou);
     a_real y = a_tf_iter(&c, x);
     ASSERT(y == ref, "iter: y = sum num[i]*input'[i] - sum den[i]*output[i] (most recent first; old outputs)");
+    RELEASE4(num, inp, den, out);
 }
 void h_tf_iter_equation(void)
 {
-    ND(unsigned, n, u32); ND(unsigned, m, u32); ND(int, xi, int);
+    ND(unsigned, vn, u32); ND(unsigned, vm, u32); ND(int, xi, int);
     unsigned k, j;
-    ASSUME(n <= NB && m <= NB && -EXM <= xi && xi <= EXM);
+    ASSUME(vn <= NB && vm <= NB && -EXM <= xi && xi <= EXM);
     DECL4I(nu, EXM); DECL4I(de, EXM); DECL4I(in, EXM); DECL4I(ou, EXM);
-    EACH(k, n, NB) EACH_M(j, m) { tf_iter_equation_nm(k, j, (a_real)xi, nu, de, in, ou); }
+    EACH(k, vn, NB) EACH_M(j, vm) { tf_iter_equation_nm(k, j, (a_real)xi, nu, de, in, ou); }
+    VERIF_CANARY();
+}
+
+/* ---- [B, concrete vectors] the same equation for two fixed integer vectors and all orders 0..4 x 0..4.
+        A test, not a proof: it backs tf_iter_equation_*, whose proof rests on the code and the reference building the
+        same terms - for a wrong formula the solver may fail to produce a counterexample in time, this unit does not ---- */
+static void tf_iter_spot_nm(unsigned n, unsigned m)
+{
+    static a_real const NU[2][NB] = {{2, 3, 5, 7}, {-2, 0, 9, -4}}, DE[2][NB] = {{11, 13, 17, 19}, {1, -6, 0, 10}};
+    static a_real const IN[2][NB] = {{23, 29, 31, 37}, {-8, 14, -15, 1}}, OU[2][NB] = {{41, 43, 47, 53}, {12, -7, 5, -9}};
+    static a_real const X[2] = {59, -3};
+    unsigned t;
+    for (t = 0; t < 2; ++t)
+    {
+        a_real *num = block(n), *inp = block(n), *den = block(m), *out = block(m);
+        load(num, NU[t], n); load(inp, IN[t], n); load(den, DE[t], m); load(out, OU[t], m);
+        a_tf c;
+        c.num_p = num; c.input = inp; c.num_n = n; c.den_p = den; c.output = out; c.den_n = m;
+        a_real u[NB];
+        u[0] = X[t]; u[1] = IN[t][0]; u[2] = IN[t][1]; u[3] = IN[t][2];
+        a_real ref = ref_step(n, m, NU[t], DE[t], u, OU[t]);
+        a_real y = a_tf_iter(&c, X[t]);
+        ASSERT(y == ref, "iter (concrete vectors): y = sum num[i]*input'[i] - sum den[i]*output[i]");
+        RELEASE4(num, inp, den, out);
+    }
+}
+void h_tf_iter_spot(void)
+{
+    ND(unsigned, vn, u32); ND(unsigned, vm, u32);
+    unsigned k, j;
+    ASSUME(vn <= NB && vm <= NB);
+    EACH(k, vn, NB) EACH(j, vm, NB) { tf_iter_spot_nm(k, j); }
     VERIF_CANARY();
 }
 
@@ -259,14 +304,15 @@ static void tf_steps_nm(unsigned n, unsigned m, a_real x1, a_real x2, a_real x3,
     a_tf_zero(&c);
     a_real z1 = a_tf_iter(&c, x1);
     ASSERT(z1 == r1, "zeroing restores the initial state: the first output repeats");
+    RELEASE4(num, inp, den, out);
 }
 void h_tf_steps(void)
 {
-    ND(unsigned, n, u32); ND(unsigned, m, u32); ND(int, x1i, int); ND(int, x2i, int); ND(int, x3i, int);
+    ND(unsigned, vn, u32); ND(unsigned, vm, u32); ND(int, x1i, int); ND(int, x2i, int); ND(int, x3i, int);
     unsigned k, j;
-    ASSUME(n <= NB && m <= NB && -16 <= x1i && x1i <= 16 && -16 <= x2i && x2i <= 16 && -16 <= x3i && x3i <= 16);
+    ASSUME(vn <= NB && vm <= NB && -16 <= x1i && x1i <= 16 && -16 <= x2i && x2i <= 16 && -16 <= x3i && x3i <= 16);
     DECL4I(nu, 16); DECL4I(de, 16);
-    EACH(k, n, NB) EACH_M(j, m) { tf_steps_nm(k, j, (a_real)x1i, (a_real)x2i, (a_real)x3i, nu, de); }
+    EACH(k, vn, NB) EACH_M(j, vm) { tf_steps_nm(k, j, (a_real)x1i, (a_real)x2i, (a_real)x3i, nu, de); }
     VERIF_CANARY();
 }
 
@@ -275,17 +321,17 @@ void h_tf_steps(void)
         end points of alpha, where no rounding occurs: the range claim holds exactly ---- */
 void h_lpf(void)
 {
-    ND(a_real, alpha, double); ND(a_real, out0, double); ND(a_real, x, double);
+    ND(a_real, alpha, double); ND(a_real, out0, double); ND(a_real, vx, double);
     a_lpf f;
     f.alpha = alpha; f.output = out0;
-    a_real y = a_lpf_iter(&f, x);
-    ASSERT(SAME(y, (1 - alpha) * out0 + alpha * x), "lpf: output = (1-alpha)*output + alpha*x (the documented convex combination)");
+    a_real y = a_lpf_iter(&f, vx);
+    ASSERT(SAME(y, (1 - alpha) * out0 + alpha * vx), "lpf: output = (1-alpha)*output + alpha*x (the documented convex combination)");
     ASSERT(SAME(y, f.output) && SAME(f.alpha, alpha), "lpf: returns the stored output, coefficient untouched");
-    if (FINITE(out0) && FINITE(x) && alpha == 1) { ASSERT(y == x, "lpf: alpha = 1 passes every finite input through exactly (no overflow of intermediates)"); }
-    if (FINITE(out0) && FINITE(x) && alpha == 0) { ASSERT(y == out0, "lpf: alpha = 0 holds the output exactly"); }
-    if (FINITE(out0) && FINITE(x) && alpha >= 0 && alpha <= 1 && out0 == x && (x >= 0x1p-1000 || x <= -0x1p-1000 || x == 0) && (alpha == 0.5 || alpha == 0.25 || alpha == 0.75))
+    if (FINITE(out0) && FINITE(vx) && alpha == 1) { ASSERT(y == vx, "lpf: alpha = 1 passes every finite input through exactly (no overflow of intermediates)"); }
+    if (FINITE(out0) && FINITE(vx) && alpha == 0) { ASSERT(y == out0, "lpf: alpha = 0 holds the output exactly"); }
+    if (FINITE(out0) && FINITE(vx) && alpha >= 0 && alpha <= 1 && out0 == vx && (vx >= 0x1p-1000 || vx <= -0x1p-1000 || vx == 0) && (alpha == 0.5 || alpha == 0.25 || alpha == 0.75))
     {
-        ASSERT(y == x, "lpf: a settled filter stays settled for a constant input (dyadic alpha)");
+        ASSERT(y == vx, "lpf: a settled filter stays settled for a constant input (dyadic alpha)");
     }
     a_lpf_zero(&f);
     ASSERT(f.output == 0 && SAME(f.alpha, alpha), "lpf zero: output zero, coefficient untouched");
@@ -298,13 +344,13 @@ void h_lpf(void)
 /* ---- [P] high-pass: documented update V(n) = alpha*(V(n-1) + x(n) - x(n-1)) for ALL doubles ---- */
 void h_hpf(void)
 {
-    ND(a_real, alpha, double); ND(a_real, out0, double); ND(a_real, in0, double); ND(a_real, x, double);
+    ND(a_real, alpha, double); ND(a_real, out0, double); ND(a_real, in0, double); ND(a_real, vx, double);
     a_hpf f;
     f.alpha = alpha; f.output = out0; f.input = in0;
-    a_real y = a_hpf_iter(&f, x);
-    ASSERT(SAME(y, alpha * (out0 + x - in0)), "hpf: output = alpha*(output + x - previous input)");
-    ASSERT(SAME(y, f.output) && SAME(f.input, x) && SAME(f.alpha, alpha), "hpf: returns the stored output, caches the input, coefficient untouched");
-    if (FINITE(x) && in0 == x && out0 == 0 && FINITE(alpha)) { ASSERT(y == 0, "hpf: constant input and decayed output stay at zero"); }
+    a_real y = a_hpf_iter(&f, vx);
+    ASSERT(SAME(y, alpha * (out0 + vx - in0)), "hpf: output = alpha*(output + x - previous input)");
+    ASSERT(SAME(y, f.output) && SAME(f.input, vx) && SAME(f.alpha, alpha), "hpf: returns the stored output, caches the input, coefficient untouched");
+    if (FINITE(vx) && in0 == vx && out0 == 0 && FINITE(alpha)) { ASSERT(y == 0, "hpf: constant input and decayed output stay at zero"); }
     a_hpf_zero(&f);
     ASSERT(f.output == 0 && f.input == 0 && SAME(f.alpha, alpha), "hpf zero: output and cached input zero, coefficient untouched");
     a_hpf g;
